@@ -147,7 +147,9 @@ IvarTol == 2                  \* in those units
 ShiftResidTolMilli == 10      \* feature position: 0.01 pixel
 (* The outcome is a function of the VALUES of the arguments only: the same numbers held in a    *)
 (* read-only buffer, a non-contiguous or Fortran-ordered view, byte-swapped (as read from FITS), *)
-(* or a 0-d array where a scalar is admitted, give the same flux and inverse variance.  Every    *)
+(* or a 0-d array where a scalar is admitted, or - where the values are integral (counts, 0/1  *)
+(* masks, integer weights, z = 0) - with an integer or boolean numeric type instead of float64, *)
+(* give the same flux and inverse variance.  Every    *)
 (* law above is therefore checked on all of these layouts with the expectation of the values,   *)
 (* and a direct comparison of two layouts must agree exactly.                                    *)
 LayoutTolPpb == 0
